@@ -19,15 +19,11 @@ def maskSourceOnly (r : Row) : Bool :=
    | [k, d] => isK faMeta k && k.reads && !k.writes && isVecReg faMeta d && !d.reads && d.writes
    | _ => false)
 
-/-- some opmask operand other than the final operand has a write action -/
-def nonFinalMaskWritten (r : Row) : Bool :=
-  match (r.ops.filter (fun o => !o.impl)).reverse with
-  | _ :: rest => rest.any (fun o => isK faMeta o && o.writes)
-  | [] => false
-
-/-- all structural checks on one row -/
+/-- all structural checks on one row.  Every conjunct states something the property NEEDS of the row and stays
+true when avo declares more (a finding being repaired must not break an obligation): in particular nothing
+here says that the completion mask of gathers/scatters is read-only (finding C04-GATHER-K). -/
 def rowOK (r : Row) : Bool :=
   shapeOK faMeta r && cancellingOK faMeta r && implicitOK faMeta regTbl r && cmovOK faMeta r && setccOK faMeta r &&
-  maskSourceOnly r && !nonFinalMaskWritten r
+  maskSourceOnly r && nonFinalMasksRead faMeta r && bitscanOK faMeta r && deniedOK faMeta r
 
 end Avo.FormActions.Tables
